@@ -51,6 +51,7 @@ func allShapes(thorough bool) []shape {
 	shapesStrings(ss)
 	shapesMisc(ss)
 	shapesScope(ss, thorough)
+	shapesDegenerate(ss, thorough)
 	return ss.list
 }
 
@@ -1048,7 +1049,13 @@ func R@(a int) int {
 	return f(a) + func(x int) int { return x - 1 }(a)*10 + ap@(func(x int) int { return x * x }, a)*100 + mk@()(a)*1000 + h(a)*7
 }
 `)
-	add("lambda-two-results", "lambda-results-in-reverse-order", `
+	add("lambda-argument-order", "lambda-arguments-in-reverse-order", `
+func R@(a int) int {
+	g := func(x int, y int, z int) int { return x*100 + y*10 + z }
+	return g(1, 2, 3) + func(p int, q int) int { return p*10 + q }(4, 5)*1000 + a
+}
+`)
+	add("lambda-two-results", "lambda-arguments-in-reverse-order", `
 func R@(a int) int {
 	g := func(x int, y int) (int, int) { return y, x }
 	p, q := g(a, 5)
@@ -1593,6 +1600,160 @@ func shapesScope(ss *shapeSet, thorough bool) {
 				src := "func V@(a int, b int) int {\n\tx, z := 10, 0\n\t" + body + "\n\tz += x\n\tx++\n\treturn x*10000 + z\n}\n"
 				ss.add("scope", st.name+"/"+dn+"/"+u.name, "", src, false)
 			}
+		}
+	}
+}
+
+// ---- degenerate shapes: empty bodies and jumps to the next instruction -------------------------------------------------------
+
+// shapesDegenerate: statements whose body is empty or whose jump target is the
+// very next instruction (the code generator's jump peepholes see them). Part 1:
+// an `if` / `else if` without else and with an EMPTY body, its condition being
+// each comparison kind, a bool variable, its negation, && and ||, a call
+// returning bool, a call with a visible side effect, a string / nil comparison,
+// placed in every context that keeps something on the evaluation stack or is
+// sensitive to its depth. Part 2: the other degenerate statements (empty else,
+// for, range, switch, case, default, function literal; for { break }; continue /
+// break, plain and labelled, as the last statement; labelled switch break) in
+// four contexts. The Go meaning of all of them is trivial; the stack must hold
+// exactly the declared result.
+func shapesDegenerate(ss *shapeSet, thorough bool) {
+	type cnd struct{ name, pre, cond, obs string }
+	conds := []cnd{
+		{"eq", "", "a == b", "0"},
+		{"ne", "", "a != b", "0"},
+		{"lt", "", "a < b", "0"},
+		{"le", "", "a <= b", "0"},
+		{"gt", "", "a > b", "0"},
+		{"ge", "", "a >= b", "0"},
+		{"bool-var", "k := a > 0", "k", "0"},
+		{"not-bool-var", "k := a > b", "!k", "0"},
+		{"and", "", "a > 0 && b > 0", "0"},
+		{"or", "", "a == 7 || b != 1", "0"},
+		{"mixed", "", "a > 0 && (b < 0 || a == b)", "0"},
+		{"call", "", "pos@(a)", "0"},
+		{"call-with-effect", "cnt := []int{0}", "hit@(cnt, a)", "cnt[0]*1000"},
+		{"effect-in-and", "cnt := []int{0}", "hit@(cnt, a) && hit@(cnt, b)", "cnt[0]*1000"},
+		{"string-eq", "t := \"a\"\n\tif a > 0 {\n\t\tt = \"ab\"\n\t}", "t == \"ab\"", "0"},
+		{"nil-compare", "var m map[int]int\n\tif a > 0 {\n\t\tm = map[int]int{}\n\t}", "m == nil", "0"},
+		{"arith-operands", "", "a*2+1 > b-3", "0"},
+	}
+	// %P pre-statements, %C condition, %O observation of the side effect. The
+	// function that contains the empty if has parameters a, b.
+	const helpers = `
+func pos@(v int) bool { return v > 0 }
+
+func hit@(c []int, v int) bool {
+	c[0] += 1
+	return v > 0
+}
+
+`
+	type place struct{ name, text string }
+	places := []place{
+		{"plain", "func G@(a int, b int) int {\n\t%P\n\tx := a * 3\n\tif %C {\n\t}\n\treturn x + b + %O\n}\n"},
+		{"twice", "func G@(a int, b int) int {\n\t%P\n\tx := a * 3\n\tif %C {\n\t}\n\tx++\n\tif %C {\n\t}\n\treturn x + b + %O\n}\n"},
+		{"else-if", "func G@(a int, b int) int {\n\t%P\n\tx := a * 3\n\tif a == 7 {\n\t\tx += 100\n\t} else if %C {\n\t}\n\treturn x + b + %O\n}\n"},
+		{"nested-in-if", "func G@(a int, b int) int {\n\t%P\n\tx := a * 3\n\tif a != 2 {\n\t\tif %C {\n\t\t}\n\t\tx += 100\n\t}\n\treturn x + b + %O\n}\n"},
+		{"in-range-slice", "func G@(a int, b int) int {\n\t%P\n\tx := 0\n\tfor i, v := range []int{1, 2, 3} {\n\t\tif %C {\n\t\t}\n\t\tx += v * (i + 1)\n\t}\n\treturn x + %O\n}\n"},
+		{"in-range-array", "func G@(a int, b int) int {\n\t%P\n\tx := 0\n\tarr := [3]int{1, 2, 3}\n\tfor _, v := range arr {\n\t\tif %C {\n\t\t}\n\t\tx += v\n\t}\n\treturn x + %O\n}\n"},
+		{"in-range-map", "func G@(a int, b int) int {\n\t%P\n\tx := 0\n\tfor mk, mv := range map[int]int{1: 10, 2: 20, 3: 30} {\n\t\tif %C {\n\t\t}\n\t\tx += mk + mv\n\t}\n\treturn x + %O\n}\n"},
+		{"in-range-string", "func G@(a int, b int) int {\n\t%P\n\tx := 0\n\tfor i, c := range \"abc\" {\n\t\tif %C {\n\t\t}\n\t\tx += int(c) * (i + 1)\n\t}\n\treturn x + %O\n}\n"},
+		{"in-range-int", "func G@(a int, b int) int {\n\t%P\n\tx := 0\n\tfor i := range 3 {\n\t\tif %C {\n\t\t}\n\t\tx += i + 1\n\t}\n\treturn x + %O\n}\n"},
+		{"in-for", "func G@(a int, b int) int {\n\t%P\n\tx := 0\n\tfor i := 0; i < 3; i++ {\n\t\tif %C {\n\t\t}\n\t\tx += i + 1\n\t}\n\treturn x + %O\n}\n"},
+		{"in-switch-case", "func G@(a int, b int) int {\n\t%P\n\tx := 0\n\tswitch a {\n\tcase 1:\n\t\tif %C {\n\t\t}\n\t\tx += 5\n\tdefault:\n\t\tif %C {\n\t\t}\n\t\tx += 7\n\t}\n\treturn x + %O\n}\n"},
+		{"in-switch-in-range", "func G@(a int, b int) int {\n\t%P\n\tx := 0\n\tfor _, v := range []int{1, 2, 3} {\n\t\tswitch v {\n\t\tcase 2:\n\t\t\tif %C {\n\t\t\t}\n\t\t\tcontinue\n\t\t}\n\t\tx += v\n\t}\n\treturn x + %O\n}\n"},
+		{"callee-in-expression", "func pick@(a int, b int) int {\n\t%P\n\tif %C {\n\t}\n\treturn a*10 + b + %O\n}\n\nfunc G@(a int, b int) int { return pick@(1, 2)*2 - pick@(a, b) }\n"},
+		{"callee-as-argument-and-index", "func pick@(a int, b int) int {\n\t%P\n\tif %C {\n\t}\n\treturn (a+b)&1 + %O*0\n}\n\nfunc add@(p int, q int) int { return p*100 + q }\n\nfunc G@(a int, b int) int {\n\ts := []int{5, 6}\n\treturn add@(s[pick@(a, b)], pick@(b, a))\n}\n"},
+		{"multi-value-return", "func two@(a int, b int) (int, int) {\n\t%P\n\tif %C {\n\t}\n\treturn a + 1, b + 2 + %O\n}\n\nfunc G@(a int, b int) int {\n\tx, y := two@(a, b)\n\treturn x*100 + y\n}\n"},
+		{"in-function-literal", "func G@(a int, b int) int {\n\tf := func(v []int) int {\n\t\ta, b := v[0], v[1]\n\t\t%P\n\t\tif %C {\n\t\t}\n\t\treturn a - b + %O\n\t}\n\treturn f([]int{a, b})*3 + f([]int{b, a})\n}\n"},
+		{"in-method", "type rc@ struct{ N int }\n\nfunc (r *rc@) get(a int, b int) int {\n\t%P\n\tif %C {\n\t}\n\treturn r.N + a + %O\n}\n\nfunc G@(a int, b int) int {\n\tr := &rc@{N: 50}\n\treturn r.get(a, b) - r.get(b, a)*2\n}\n"},
+		{"with-init", "func G@(a int, b int) int {\n\t%P\n\tx := a * 3\n\tif w := b + 1; w > 1 && %C {\n\t}\n\treturn x + b + %O\n}\n"},
+		{"under-defer", "func rec@() { recover() }\n\nfunc inner@(a int, b int) int {\n\tdefer rec@()\n\t%P\n\tif %C {\n\t}\n\tx := a + b + %O\n\treturn x\n}\n\nfunc G@(a int, b int) int {\n\tx := inner@(a, b)\n\treturn x\n}\n"},
+	}
+	for _, pl := range places {
+		for _, c := range conds {
+			if !thorough && (pl.name == "twice" || pl.name == "in-range-int" || pl.name == "in-method" || pl.name == "with-init") && c.name != "lt" && c.name != "bool-var" && c.name != "or" && c.name != "call-with-effect" {
+				continue
+			}
+			pre := c.pre
+			if strings.Contains(pl.text, "\t\t%P") {
+				pre = strings.ReplaceAll(pre, "\n\t", "\n\t\t")
+			}
+			src := strings.ReplaceAll(strings.ReplaceAll(strings.ReplaceAll(pl.text, "%P", pre), "%C", c.cond), "%O", c.obs)
+			ss.add("degenerate", "empty-if/"+pl.name+"/"+c.name, "", helpers+src, false)
+		}
+	}
+	// part 2: other statements without effect / with a jump to the next instruction
+	type stm struct{ name, text string }
+	stmts := []stm{
+		{"empty-else", "if a > b {\n\t\tx += 100\n\t} else {\n\t}"},
+		{"empty-then-with-else", "if a > b {\n\t} else {\n\t\tx += 100\n\t}"},
+		{"empty-then-empty-else", "if a > b {\n\t} else {\n\t}"},
+		{"empty-else-if-empty-else", "if a > b {\n\t\tx += 100\n\t} else if a == b {\n\t} else {\n\t}"},
+		{"empty-for3", "for i := 0; i < a; i++ {\n\t}"},
+		{"empty-for-cond", "for w := a; w < 3; w++ {\n\t}"},
+		{"empty-range-slice", "for range []int{a, b} {\n\t}"},
+		{"empty-range-map", "for range map[int]int{1: a, 2: b} {\n\t}"},
+		{"empty-range-string", "for range \"ab\" {\n\t}"},
+		{"empty-switch", "switch a {\n\t}"},
+		{"empty-tagless-switch", "switch {\n\t}"},
+		{"empty-cases", "switch a {\n\tcase 1:\n\tcase 2, 7:\n\t\tx += 100\n\tcase 0:\n\tdefault:\n\t}"},
+		{"empty-default-first", "switch a {\n\tdefault:\n\tcase 1:\n\t\tx += 100\n\t}"},
+		{"empty-tagless-cases", "switch {\n\tcase a > b:\n\tcase a == b:\n\t\tx += 100\n\tdefault:\n\t}"},
+		{"only-default", "switch a {\n\tdefault:\n\t\tx += 100\n\t}"},
+		{"case-with-only-break", "switch a {\n\tcase 1:\n\t\tbreak\n\tcase 2:\n\t\tx += 100\n\t\tbreak\n\t}"},
+		{"empty-fallthrough", "switch a {\n\tcase 1:\n\t\tfallthrough\n\tcase 2:\n\t\tx += 100\n\tcase 0:\n\t}"},
+		{"for-break", "for {\n\t\tbreak\n\t}"},
+		{"for-cond-break", "for a > 0 {\n\t\tbreak\n\t}"},
+		{"continue-last", "for i := 0; i < 3; i++ {\n\t\tx += i\n\t\tcontinue\n\t}"},
+		{"conditional-continue-last", "for i := 0; i < 3; i++ {\n\t\tx += i\n\t\tif i == a {\n\t\t\tcontinue\n\t\t}\n\t}"},
+		{"conditional-break-last", "for i := 0; i < 3; i++ {\n\t\tx += i\n\t\tif i == a {\n\t\t\tbreak\n\t\t}\n\t}"},
+		{"labelled-continue-last", "lc:\n\tfor i := 0; i < 3; i++ {\n\t\tx += i\n\t\tcontinue lc\n\t}"},
+		{"labelled-break-only", "lb:\n\tfor {\n\t\tbreak lb\n\t}"},
+		{"labelled-break-from-inner-last", "lo:\n\tfor i := 0; i < 2; i++ {\n\t\tfor j := 0; j < 2; j++ {\n\t\t\tx += j\n\t\t\tif j == a {\n\t\t\t\tbreak lo\n\t\t\t}\n\t\t}\n\t}"},
+		{"labelled-continue-from-inner-last", "lo:\n\tfor i := 0; i < 2; i++ {\n\t\tfor j := 0; j < 2; j++ {\n\t\t\tx += j\n\t\t\tif j == a {\n\t\t\t\tcontinue lo\n\t\t\t}\n\t\t}\n\t}"},
+		{"labelled-switch-break", "ls:\n\tswitch {\n\tcase a > b:\n\t\tbreak ls\n\tdefault:\n\t\tx += 100\n\t}"},
+		{"range-continue-only", "for range []int{1, 2} {\n\t\tcontinue\n\t}"},
+		{"range-break-only", "for range []int{1, 2} {\n\t\tbreak\n\t}"},
+		{"empty-block", "{\n\t}"},
+		{"empty-function-literal", "nop := func() {}\n\tnop()\n\tfunc() {}()"},
+		{"empty-function", "nop@()\n\tnop2@(a, b)"},
+		{"return-in-both-branches-then-empty", "if a == 100 {\n\t\treturn 1\n\t} else if a == 200 {\n\t\treturn 2\n\t}\n\tif b == 300 {\n\t}"},
+	}
+	ctxs := []place{
+		{"plain", "func G@(a int, b int) int {\n\tx := a\n\t%S\n\treturn x*3 + b\n}\n"},
+		{"in-range", "func G@(a int, b int) int {\n\tx := a\n\tfor _, v := range []int{1, 2} {\n\t\tx += v\n\t\t{\n\t%S\n\t\t}\n\t\tx *= 2\n\t}\n\treturn x*3 + b\n}\n"},
+		{"in-switch-case", "func G@(a int, b int) int {\n\tx := a\n\tswitch b {\n\tcase 1, 2:\n\t%S\n\t\tx += 5\n\tdefault:\n\t%S\n\t}\n\treturn x*3 + b\n}\n"},
+		{"callee-in-expression", "func cal@(a int, b int) int {\n\tx := a\n\t%S\n\treturn x*3 + b\n}\n\nfunc G@(a int, b int) int { return cal@(1, 2)*2 - cal@(a, b) + cal@(b, a)*5 }\n"},
+	}
+	const helpers2 = `
+func nop@() {}
+
+func nop2@(p int, q int) {}
+
+`
+	for _, st := range stmts {
+		for _, cx := range ctxs {
+			if strings.HasPrefix(st.text, "l") && strings.Contains(st.text, ":\n") && cx.name == "in-switch-case" {
+				continue // the statement would appear twice in one function: duplicate label
+			}
+			if !thorough && cx.name == "in-switch-case" && !strings.HasPrefix(st.name, "empty-") {
+				continue
+			}
+			body := st.text
+			if cx.name == "in-range" {
+				body = "\t" + strings.ReplaceAll(body, "\n", "\n\t\t")
+			}
+			if cx.name == "in-switch-case" {
+				body = "\t" + strings.ReplaceAll(body, "\n", "\n\t")
+			}
+			src := strings.ReplaceAll(cx.text, "%S", body)
+			h := ""
+			if strings.Contains(src, "nop@(") {
+				h = helpers2
+			}
+			ss.add("degenerate", st.name+"/"+cx.name, "", h+src, false)
 		}
 	}
 }
